@@ -373,7 +373,7 @@ class C19(Prop):
         ch = body_of(be, "call_heart_beat", "hb:call_heart_beat")
         acc = has(be, r"#\s*define\s+HEART_BEAT_FLAG\(\)\s+platform_atomic_load_int\s*\(\s*&heart_beat_flag\s*\)") and \
             has(be, r"#\s*define\s+SET_HEART_BEAT_FLAG\(v\)\s+platform_atomic_store_int\s*\(\s*&heart_beat_flag") and \
-            len(re.findall(r"\bheart_beat_flag\b", re.sub(r"/\*.*?\*/", " ", be, flags=re.S))) == 3
+            len(re.findall(r"\bheart_beat_flag\b", re.sub(r"//[^\n]*", " ", re.sub(r"/\*.*?\*/", " ", be, flags=re.S)))) == 3
         first_stmt = re.search(r"^\s*object_t\s*\*\s*ob\s*;\s*SET_HEART_BEAT_FLAG\s*\(\s*0\s*\)\s*;", ch) is not None
         out += ["/-- C: heart_beat_flag is touched only through the atomic accessors (definition + the two macros are its only mentions) -/",
                 "def hbFlagAtomicOnly : Bool := " + b(acc),
